@@ -2,7 +2,7 @@
 
 These attribute types are *assumptions* (trusted base item 7 in DESIGN.md): typed
 fields of parse-tree / instantiated-tree / wrapper objects.  They are checked at
-run time on real objects by the bounded tier (pyvc.wfcheck) and are established by
+run time on real objects by the bounded tier (pyvc/wfcheck.py, wired into C01 and C08) and are established by
 the node constructors that are themselves under contract (C01).
 """
 
@@ -117,10 +117,13 @@ def tree_schema():
     s['Namespace']['content'] = 'list[%s]' % node
     for c in ('Class', 'GlobalFunction', 'Enum', 'Include', 'ForwardDeclaration', 'TypedefTemplateInstantiation'):
         s[c]['parent'] = 'ref:Namespace'
-    s['Enum']['parent'] = 'ref:Namespace|ref:Class'
     s['Variable']['parent'] = 'ref:Namespace|ref:Class'
-    for c in ('Method', 'StaticMethod', 'Constructor', 'Operator', 'DunderMethod'):
+    for c in ('Method', 'StaticMethod', 'Constructor', 'DunderMethod'):
         s[c]['parent'] = 'ref:Class'
+    # Class.__init__ links constructors, methods, static / dunder methods and properties to the class; operators and
+    # class-scoped enums keep parent == '' (found by the run-time schema check, pyvc/wfcheck.py)
+    s['Operator']['parent'] = 'estr|ref:Class'
+    s['Enum']['parent'] = 'estr|ref:Namespace|ref:Class'
     s['InstantiatedClass']['parent_class'] = 'estr|ref:Typename'   # instantiate_parent_class returns the typename
     for c in ('InstantiatedMethod', 'InstantiatedStaticMethod', 'InstantiatedConstructor'):
         s[c]['parent'] = 'ref:InstantiatedClass'                   # InstantiationHelper passes the instantiated class
